@@ -102,6 +102,11 @@ fn glob_compiler_unreachable(_token: &[u8]) -> Result<glob::Pattern, &str> {
     panic!("the glob compiler was invoked for a pattern without unescaped metacharacters");
 }
 
+// likewise the glob matcher: an exact rule must never consult it
+fn glob_matcher_unreachable(_p: &glob::Pattern, _s: &str) -> bool {
+    panic!("the glob matcher was consulted for an exact rule");
+}
+
 // (b) rules built from patterns without unescaped metacharacters match exactly as fnmatch does
 fn literal_rule(p: &'static [u8], name: &[u8]) {
     let (meta, _, want, n) = spec_scan(p);
@@ -170,6 +175,7 @@ macro_rules! c15_literal_harness {
         #[kani::stub(std::arch::x86_64::__cpuid_count, stubs::verif_cpuid_stub)]
         #[kani::stub(alloc::fmt::format, stubs::verif_format_stub)]
         #[kani::stub(crate::glob_match::compile_glob_pattern, glob_compiler_unreachable)]
+        #[kani::stub(glob::Pattern::matches, glob_matcher_unreachable)]
         fn $name() {
             let p: &'static [u8; $plen] = Box::leak(Box::new(kani::any()));
             let name: [u8; $nlen] = kani::any();
@@ -229,6 +235,7 @@ c15_hash_harness!(c15_prefix_hash_names_of_4_and_6_bytes, 4, 6);
 #[kani::stub(std::arch::x86_64::__cpuid_count, stubs::verif_cpuid_stub)]
 #[kani::stub(alloc::fmt::format, stubs::verif_format_stub)]
 #[kani::stub(crate::glob_match::compile_glob_pattern, glob_compiler_unreachable)]
+#[kani::stub(glob::Pattern::matches, glob_matcher_unreachable)]
 fn c15_canary_exact_rule_matches_something() {
     let p: &'static [u8; 5] = Box::leak(Box::new(kani::any()));
     let (meta, esc, _, n) = spec_scan(&p[..]);
